@@ -177,6 +177,9 @@ class C12(Check):
     def _forms(self, case):
         js = case["schema"]
         forms = {"raw": js, "parsed": guard("parse-valid-schema", parse_schema, copy.deepcopy(js))}
+        if isinstance(forms["parsed"], dict) and "__named_schemas" in forms["parsed"]:
+            # what older versions wrote: the parse marker without the embedded name table (re-parsed on use)
+            forms["legacy"] = {k: v for k, v in copy.deepcopy(forms["parsed"]).items() if k != "__named_schemas"}
         if case.get("pieces") is not None:
             ns = {}
             for p in case["pieces"]:
